@@ -239,6 +239,7 @@ class Sim:
                 and self.cur_host == self.interleave[0]):
             a, b = self.interleave
             self.interleave = None
+            self.nested_trigger = paths[0]  # the unlink during which the other host acted: only THIS copy's count predates it
             self._nested(a, b)
         self._tick(op)
         e = {"op": op, "paths": paths, "host": self.cur_host, "tick": self.ncalls, **({"mode": info["mode"]} if "mode" in info else {})}
